@@ -8,6 +8,7 @@ for sheets / documents).  Specification: `Spec` = a plain list of lists with its
 and the obvious list operations (`specStep`).
 -/
 import NumbersModel.Lemmas.Grid
+import NumbersModel.Lemmas.Cache
 namespace NumbersModel.Props.C03
 open NumbersModel NumbersModel.Grid
 
@@ -152,5 +153,23 @@ example : ∃ s', delRowPinned (init (0 : Nat) 3 3) 2 (some 2) = .ok s' ∧ ¬ W
   have := h.1
   revert this
   decide
+
+/-! ### the `numbers_cache` memo (src/numbers_parser/numbers_cache.py) is transparent -/
+
+/-- the memo key `".".join(str(arg))` determines the (integer) argument tuple: two different
+    calls of a cached method never share a cache slot. -/
+theorem cache_key_injective (xs ys : List Int) (hl : xs.length = ys.length)
+    (h : Cache.cacheKey xs = Cache.cacheKey ys) : xs = ys :=
+  Cache.cacheKey_injective xs ys hl h
+
+/-- hence memoising a pure method changes no result: any sequence of calls (with `n` key
+    arguments each) through the cache returns exactly what the undecorated method returns. -/
+theorem memo_transparent {β} (f : List Int → β) (n : Nat) (calls : List (List Int))
+    (hl : ∀ a ∈ calls, a.length = n) :
+    (Cache.memoCalls f [] calls).1 = calls.map f :=
+  Cache.memoCalls_transparent f n calls [] (fun e he => by cases he) hl
+
+example : Cache.cacheKey [12, -3, 0] = "12.-3.0".toList := by decide
+example : (Cache.memoCalls (fun a => a.sum) [] [[1, 2], [1, 2], [12, 0]]).1 = [3, 3, 12] := by decide
 
 end NumbersModel.Props.C03
